@@ -726,7 +726,10 @@ func (s *scenario) genFilter(table string, limits []pair, intent string) sqlgen.
 func (s *scenario) genOptions(table string, ctxKind string) (*sqlgen.SelectOptions, string) {
 	r := s.r
 	pk := map[string]string{"devices": "id", "events": "id", "members": "user_id"}[table]
-	switch r.Intn(9) {
+	switch r.Intn(11) {
+	case 9, 10:
+		where, vals := s.genWhere(table)
+		return &sqlgen.SelectOptions{Where: where, Values: vals}, "Where(" + where + ")"
 	case 0:
 		return &sqlgen.SelectOptions{Limit: 1 + r.Intn(3)}, "Limit"
 	case 1:
@@ -750,6 +753,66 @@ func (s *scenario) genOptions(table string, ctxKind string) (*sqlgen.SelectOptio
 		return &sqlgen.SelectOptions{}, "empty"
 	}
 	return nil, "nil"
+}
+
+// genWhere composes a custom WHERE clause from 2-3 atoms over the table's
+// columns (shard columns with arbitrary values included), each fragment
+// parenthesised or not, joined by OR / AND at the top level, the whole wrapped
+// once more now and then: "(name = ?) OR (region = ?)", "name = ? OR (score IS
+// NULL)", "(kind = ? AND org_id = ?) OR (region = ?)", "((role = ?) OR (org_id =
+// ?))" ... The statement oracle parses what sqlgen emits with SQL precedence
+// (AND binds tighter than OR), so a custom clause that escapes the AND with
+// the filter shows up as a disjunct without the limit columns.
+func (s *scenario) genWhere(table string) (string, []interface{}) {
+	r := s.r
+	type atom struct {
+		text string
+		vals func() []interface{}
+	}
+	none := func() []interface{} { return nil }
+	org := atom{"org_id = ?", func() []interface{} { return []interface{}{orgVals[r.Intn(3)]} }}
+	reg := atom{"region = ?", func() []interface{} { return []interface{}{regionVals[r.Intn(2)]} }}
+	var atoms []atom
+	switch table {
+	case "devices":
+		atoms = []atom{{"name = ?", func() []interface{} { return []interface{}{fmt.Sprintf("d%d", r.Intn(3))} }}, {"score IS NULL", none},
+			{"id = ?", func() []interface{} { return []interface{}{int64(1 + r.Intn(12))} }}, org, reg}
+	case "events":
+		atoms = []atom{{"kind = ?", func() []interface{} { return []interface{}{[]string{"a", "b"}[r.Intn(2)]} }},
+			{"kind IN (?, ?)", func() []interface{} { return []interface{}{"a", "zz"} }}, {"id = ?", func() []interface{} { return []interface{}{int64(1 + r.Intn(12))} }}, org, reg}
+	default:
+		atoms = []atom{{"role = ?", func() []interface{} { return []interface{}{[]string{"admin", "user"}[r.Intn(2)]} }}, {"region IS NOT NULL", none},
+			{"user_id = ?", func() []interface{} { return []interface{}{int64(1 + r.Intn(12))} }}, org, reg}
+	}
+	var vals []interface{}
+	fragment := func() string {
+		a := atoms[r.Intn(len(atoms))]
+		text := a.text
+		vals = append(vals, a.vals()...)
+		if r.Intn(4) == 0 { // a compound fragment
+			b := atoms[r.Intn(len(atoms))]
+			text += []string{" AND ", " OR "}[r.Intn(2)] + b.text
+			vals = append(vals, b.vals()...)
+			return "(" + text + ")"
+		}
+		if r.Intn(10) < 7 {
+			return "(" + text + ")"
+		}
+		return text
+	}
+	n := 2 + r.Intn(2)
+	clause := fragment()
+	for k := 1; k < n; k++ {
+		conn := " OR "
+		if r.Intn(10) < 3 {
+			conn = " AND "
+		}
+		clause += conn + fragment()
+	}
+	if r.Intn(10) == 0 {
+		clause = "(" + clause + ")"
+	}
+	return clause, vals
 }
 
 // genRow builds a row for a write with the given intent.
